@@ -5,15 +5,16 @@ from harness.core import tb
 from harness.gen import systems
 from harness.props import _shared, c03
 
-PROOF_MODULE = ["OdeVerif.Proofs.C02", "OdeVerif.Proofs.C03", "OdeVerif.Proofs.C04b", "OdeVerif.Proofs.RefineGraph", "OdeVerif.Proofs.PipelineGraph", "OdeVerif.Proofs.RefineDemote"]
-GENERATED = ['PyGraph', 'PyDemote']
+PROOF_MODULE = ["OdeVerif.Proofs.C02", "OdeVerif.Proofs.C03", "OdeVerif.Proofs.C04b", "OdeVerif.Proofs.RefineGraph", "OdeVerif.Proofs.PipelineGraph", "OdeVerif.Proofs.RefineDemote", "OdeVerif.Proofs.RefineSplit"]
+GENERATED = ['PyGraph', 'PyDemote', 'PySplit']
 THEOREMS = ["OdeVerif.C02.classify_complete_lin", "OdeVerif.C02.classify_complete_const", "OdeVerif.C02.canonical_linear_no_nonlin",
             "OdeVerif.C02.parameterSymbols_spec", "OdeVerif.C02.analytic_sound_coeffs",
             "OdeVerif.C03.tractable_recognised", "OdeVerif.C03.propagate_greatest", "OdeVerif.C03.verdict_perm_invariant",
             "OdeVerif.C04b.expandRaw_sound", "OdeVerif.C04b.coeffOf_eq", "OdeVerif.C04b.linearCC_iff", "OdeVerif.C04b.spelling_invariant", "OdeVerif.C04b.den_ring_rules", "OdeVerif.C04b.den_sympow_add",
             "OdeVerif.Refine.propagate_refines", "OdeVerif.Refine.verdict_refines",
             "OdeVerif.PipelineSpec.collect_sound", "OdeVerif.PipelineSpec.analyse_spelling_invariant",
-            "OdeVerif.Refine.demote_eligible", "OdeVerif.Refine.findAnalytic_refines"]
+            "OdeVerif.Refine.demote_eligible", "OdeVerif.Refine.findAnalytic_refines",
+            "OdeVerif.Refine.splitLinInhomNonlin_refines", "OdeVerif.Refine.splitLinInhomNonlin_lin_index"]
 LEVEL = "proof"
 STYLES = ["expanded", "factored", "nested", "floats", "shuffled", "expanded"]
 
